@@ -157,6 +157,7 @@ namespace ex
     {
         uint64_t executions = 0, transitions = 0, deadlocks = 0, maxPoints = 0;
         bool budgetHit      = false;
+        bool stop           = false; // set by the harness to end the exploration early (enough violations)
     };
 
     // explore every schedule with at most `bound` preemptions (bound < 0: unbounded)
@@ -167,6 +168,8 @@ namespace ex
         stack.push_back({});
         while (!stack.empty())
         {
+            if (st.stop)
+                return;
             if (st.executions >= maxExec)
             {
                 st.budgetHit = true;
